@@ -153,3 +153,71 @@ def u_seed(ctx):
                and len(src) == 4 and len(made) == 4, detail=str(log2))
     ctx.record("spawn: n=None gives one generator, n=3 a list of three", isinstance(one, tuple) and isinstance(many, list) and len(many) == 3,
                detail=str((one, many)))
+
+
+@unit(P, "alias[copies of a stochastic component that draws from the global stream keep drawing from the global stream]", "A1", targets=[])
+def u_copy_alias(ctx):
+    """A component built with rng=None draws from global_prng, which prng.seed() re-seeds.  A copy that holds a CLONE of that
+    stream no longer follows re-seeding.  Obligation per copy method (found by an AST scan of the package: __copy__ /
+    __deepcopy__ of classes that mention rng): executed on a source whose rng IS global_prng, with copy.copy / copy.deepcopy
+    replaced by cloning stand-ins, the copy's rng is global_prng itself."""
+    import os
+    from pyvc import REPO
+    from pybrops.core.random.prng import global_prng
+    found = 0
+    for root, dirs, files in os.walk(os.path.join(REPO, "pybrops")):
+        dirs[:] = sorted(d for d in dirs if d != "__pycache__")
+        for fn in sorted(files):
+            if not fn.endswith(".py"):
+                continue
+            rel = os.path.relpath(os.path.join(root, fn), REPO)
+            try:
+                tree = ast.parse(loopcut.read_source(rel))
+            except SyntaxError:
+                continue
+            for c in tree.body:
+                if not isinstance(c, ast.ClassDef):
+                    continue
+                for m in c.body:
+                    if isinstance(m, ast.FunctionDef) and m.name in ("__copy__", "__deepcopy__") and any(
+                            (isinstance(n, ast.Attribute) and n.attr in ("rng", "_rng")) or (isinstance(n, ast.keyword) and n.arg == "rng")
+                            for n in ast.walk(m)):
+                        found += 1
+                        ctx.extra_files = getattr(ctx, "extra_files", set()) | {rel}
+                        made = []
+
+                        class Src:
+                            def __init__(self, **kw):
+                                if kw:
+                                    self.kw = kw
+                                    made.append(self)
+
+                            def __getattr__(self, a):
+                                if a in ("rng", "_rng"):
+                                    return global_prng
+                                if a.startswith("__"):
+                                    raise AttributeError(a)
+                                return loopcut.Token("self." + a)
+
+                        class Copy:
+                            @staticmethod
+                            def copy(x):
+                                return ("clone", x)
+
+                            @staticmethod
+                            def deepcopy(x, memo=None):
+                                return ("clone", x)
+                        name = "alias:%s:%s.%s" % (rel.split("/")[-1], c.name, m.name)
+                        try:
+                            f = loopcut.Extracted(rel + ":" + c.name + "." + m.name, overrides={"copy": Copy})
+                            out = f(Src(), {}) if m.name == "__deepcopy__" else f(Src())
+                            rng = None
+                            if made:
+                                rng = made[-1].kw.get("rng", getattr(made[-1], "_set_rng", None))
+                            ok = len(made) == 1 and out is made[0] and rng is global_prng
+                            ctx.record(name + ":copy-of-a-global-stream-component-draws-from-global_prng", ok, kind="frame",
+                                       detail="constructed %d object(s); rng handed to the copy: %r" % (len(made), rng))
+                        except Exception as ex_:
+                            ctx.record(name + ":harness-followed-the-method", False, kind="unsupported",
+                                       detail="UNSUPPORTED %r" % (ex_,))
+    ctx.record("alias:copy-methods-of-stochastic-components-found", found >= 2, kind="cover", detail="%d methods" % found)
